@@ -220,207 +220,225 @@ def run(ctx: Ctx, extended: bool = False) -> None:
     drv = ctx.get_driver()
     n = (120 if ctx.quick else 1500) * (3 if extended else 1)
     for it in range(n):
-        spec = gen_leaf(rng)
         try:
-            js = speclib.leaf_json(spec)
-        except TypeError:
-            continue
-        kind = js["kind"]
-        ctx.count(f"kind_{kind}")
-        case0 = {"spec": repr(spec)[:300]}
-        # the attributes a spec reports are the ones it was built with: num_values must be positive and one above the largest
-        # value validate accepts (the declared count, whatever the dtype of the elements)
-        if kind in ("discrete", "multiDiscrete"):
-            nvr = np.asarray(spec.num_values).astype(np.int64)
-            topv = np.asarray(spec.maximum).astype(np.int64) + 1
-            if (nvr <= 0).any() or not np.array_equal(np.broadcast_to(nvr, np.shape(topv)), topv):
-                ctx.fail("specs", "attr_num_values", f"num_values reports {nvr.tolist()} but the largest valid value is {(topv - 1).tolist()}", case0)
-            ctx.count("num_values_at_dtype_top" if int(np.max(nvr, initial=0)) in (128, 256, 32768) else "num_values_small")
-        if drv.call("spec.wf", spec=js) is not True:
-            ctx.disagree("specs", "model says a constructible spec is not well-formed", case0)
-        # generate / validate
-        g = spec.generate_value()
-        ctx.evaluations += 1
-        if not impl_validate(spec, g):
-            ctx.fail("specs", "generate_valid", "validate rejects generate_value()", case0)
-        mg = drv.call("spec.generate", spec=js)
-        if mg != speclib.arr_json(g):
-            ctx.disagree("specs", "model generate != generate_value()", {**case0, "model": mg, "impl": speclib.arr_json(g)})
-        for label, v in candidate_values(rng, spec):
-            ctx.evaluations += 1
-            got = impl_validate(spec, v)
+            spec = gen_leaf(rng)
             try:
-                m = drv.call("spec.valid", spec=js, value=speclib.arr_json(v))
-            except (DriverError, TypeError):
+                js = speclib.leaf_json(spec)
+            except TypeError:
                 continue
-            ctx.count(f"value_{label}_{'ok' if got else 'rejected'}")
-            ctx.nontrivial.add((repr(spec), label))
-            case = {**case0, "label": label, "value": np.asarray(v).tolist(), "validate_accepts": got, "model_valid": m}
-            expect = label in ("any", "at_min", "at_max", "inside")
-            if got != expect:
-                ctx.fail("specs", "valid_iff", f"validate {'accepts' if got else 'rejects'} a value that is {label}", case, {"label": label})
-            elif got != m:
-                ctx.disagree("specs", "model valid != validate", case)
-            if got:
-                dm = specs.jumanji_specs_to_dm_env_specs(spec)
-                a = np.asarray(jnp.asarray(v))
-                try:
-                    sp = specs.jumanji_specs_to_gym_spaces(spec)
-                except ValueError as e:
-                    unsigned = str(np.dtype(spec.dtype)) == "bool" or str(np.dtype(spec.dtype)).startswith("uint")
-                    ctx.fail("specs", "toGym_raises", f"conversion to a gym space raises: {e}", case,
-                             {"spec_class": type(spec).__name__, "unsigned_or_bool": unsigned})
-                    sp = None
-                if sp is not None and not sp.contains(a):
-                    ctx.fail("specs", "toGym_member", "a valid value is not in the converted gym space", {**case, "space": repr(sp)})
-                try:
-                    dm.validate(a)
-                except ValueError as e:
-                    ctx.fail("specs", "toDm_member", f"a valid value is rejected by the converted dm_env spec: {e}", case)
-                if drv.call("spec.gym_contains", spec=js, value=speclib.arr_json(v)) is not True:
-                    ctx.disagree("specs", "model gym space rejects a valid value", case)
-        # Python scalars (weakly typed in JAX): a rank-0 spec must treat them like any other value of the dtype jnp.asarray gives
-        # them (int -> int32, float -> float32, bool -> bool with x64 off): accepted exactly when that dtype is the declared one
-        # and the value lies inside the bounds — never converted to the declared dtype first
-        if tuple(spec.shape) == ():
-            b0 = bounds_of(spec)
-            sdt = str(np.dtype(spec.dtype))
-            pys: List[Any] = [0, 1, 3, -1, 300, 2.7, 0.0, 1.0, -0.5, True, False]
-            if b0 is not None and sdt != "bool":
-                lo0, hi0 = float(b0[0]), float(b0[1])
-                if abs(lo0) < 1e6 and abs(hi0) < 1e6:
-                    pys += [int(lo0), int(hi0), int(hi0) + 1, int(lo0) - 1, lo0, hi0, (lo0 + hi0) / 2]
-            for pv in pys:
-                pdt = {bool: "bool", int: "int32", float: "float32"}[type(pv)]
-                av = np.asarray(pv, pdt)
-                inside = True if b0 is None else bool(np.asarray(b0[0]).astype(np.float64) <= float(av) <= np.asarray(b0[1]).astype(np.float64))
-                expect = pdt == sdt and inside
+            kind = js["kind"]
+            ctx.count(f"kind_{kind}")
+            case0 = {"spec": repr(spec)[:300]}
+            # the attributes a spec reports are the ones it was built with: num_values must be positive and one above the largest
+            # value validate accepts (the declared count, whatever the dtype of the elements)
+            if kind in ("discrete", "multi"):
+                nvr = np.asarray(spec.num_values).astype(np.int64)
+                topv = np.asarray(spec.maximum).astype(np.int64) + 1
+                if (nvr <= 0).any() or not np.array_equal(np.broadcast_to(nvr, np.shape(topv)), topv):
+                    ctx.fail("specs", "attr_num_values", f"num_values reports {nvr.tolist()} but the largest valid value is {(topv - 1).tolist()}", case0)
+                    continue
+                ctx.count("num_values_at_dtype_top" if int(np.max(nvr, initial=0)) in (128, 256, 32768) else "num_values_small")
+            try:
+                wf = drv.call("spec.wf", spec=js)
+            except DriverError as e:
+                ctx.disagree("specs", f"the attributes the spec reports cannot be a spec of the model: {e}", case0)
+                continue
+            if wf is not True:
+                ctx.disagree("specs", "model says a constructible spec is not well-formed", case0)
+            # generate / validate
+            g = spec.generate_value()
+            ctx.evaluations += 1
+            if not impl_validate(spec, g):
+                ctx.fail("specs", "generate_valid", "validate rejects generate_value()", case0)
+            mg = drv.call("spec.generate", spec=js)
+            if mg != speclib.arr_json(g):
+                ctx.disagree("specs", "model generate != generate_value()", {**case0, "model": mg, "impl": speclib.arr_json(g)})
+            for label, v in candidate_values(rng, spec):
                 ctx.evaluations += 1
-                got = impl_validate(spec, pv)
-                ctx.count(f"value_python_{type(pv).__name__}_{'ok' if got else 'rejected'}")
-                ctx.nontrivial.add((repr(spec), "py", repr(pv)))
+                got = impl_validate(spec, v)
+                try:
+                    m = drv.call("spec.valid", spec=js, value=speclib.arr_json(v))
+                except (DriverError, TypeError):
+                    continue
+                ctx.count(f"value_{label}_{'ok' if got else 'rejected'}")
+                ctx.nontrivial.add((repr(spec), label))
+                case = {**case0, "label": label, "value": np.asarray(v).tolist(), "validate_accepts": got, "model_valid": m}
+                expect = label in ("any", "at_min", "at_max", "inside")
                 if got != expect:
-                    ctx.fail("specs", "valid_iff", f"validate {'accepts' if got else 'rejects'} the Python scalar {pv!r} (dtype {pdt} as an array) for a spec of dtype {sdt}",
-                             {**case0, "label": "python_scalar", "value": pv, "validate_accepts": got}, {"label": "python_scalar"})
-                    break
-        # replace()
-        r0 = spec.replace()
-        try:
-            r0_eq = bool(r0 == spec)
-        except Exception as e:  # noqa: BLE001
-            ctx.fail("specs", "eq_raises", f"== raises {type(e).__name__}: {e}", case0)
-            continue
-        if not r0_eq or speclib.leaf_json(r0) != js:
-            ctx.fail("specs", "replace_nil", "replace() is not equal to the spec", case0)
-        rn = spec.replace(name="renamed")
-        jn = speclib.leaf_json(rn)
-        mrn = drv.call("spec.replace", spec=js, kws=[{"k": "name", "v": "renamed"}])
-        if {k: v for k, v in jn.items() if k != "name"} != {k: v for k, v in js.items() if k != "name"} or jn["name"] != "renamed":
-            ctx.fail("specs", "replace_only_named", "replace(name=…) changed another attribute", {**case0, "after": repr(rn)[:300]})
-        if mrn != jn:
-            ctx.disagree("specs", "model replace(name) != implementation", {**case0, "model": mrn, "impl": jn})
-        # an earlier replace(...) on the same object must not leak into a later one
-        r1 = spec.replace()
-        if speclib.leaf_json(r1) != js:
-            ctx.fail("specs", "replace_nil", "replace() after an earlier replace(name=…) on the same spec differs from the spec", {**case0, "after": repr(r1)[:300]})
-        # equality
-        label, other = perturb(rng, spec)
-        try:
-            jo = speclib.leaf_json(other)
-        except TypeError:
-            continue
-        ctx.evaluations += 1
-        try:
-            e1, e2, er = bool(spec == other), bool(other == spec), bool(spec == spec)
-        except Exception as e:  # noqa: BLE001
-            ctx.fail("specs", "eq_raises", f"== raises {type(e).__name__}: {e}", {**case0, "other": repr(other)[:300], "perturbed": label})
-            continue
-        m = drv.call("spec.eq", a=js, b=jo)
-        casee = {**case0, "other": repr(other)[:300], "perturbed": label, "impl_eq": e1, "model_eq": m}
-        ctx.count(f"eq_{label}_{e1}")
-        if not er:
-            ctx.fail("specs", "eq_refl", "spec != spec", casee)
-        if e1 != e2:
-            ctx.fail("specs", "eq_symm", "equality is not symmetric", casee)
-        expect_eq = label in ("same", "bounds_broadcast")
-        if e1 != expect_eq:
-            ctx.fail("specs", "eq_distinguishes", f"== is {e1} for specs that differ in: {label}", casee, {"perturbed": label})
-        elif m != e1:
-            ctx.disagree("specs", "model equality != implementation", casee)
-        # pickling
-        p = pickle.loads(pickle.dumps(spec))
-        if not (p == spec) or speclib.leaf_json(p) != js:
-            ctx.fail("specs", "pickle_roundtrip", "pickle round trip is not an equal spec", case0)
-        ctx.sample({"spec": repr(spec)[:200], "kind": kind})
+                    ctx.fail("specs", "valid_iff", f"validate {'accepts' if got else 'rejects'} a value that is {label}", case, {"label": label})
+                elif got != m:
+                    ctx.disagree("specs", "model valid != validate", case)
+                if got:
+                    dm = specs.jumanji_specs_to_dm_env_specs(spec)
+                    a = np.asarray(jnp.asarray(v))
+                    try:
+                        sp = specs.jumanji_specs_to_gym_spaces(spec)
+                    except (ValueError, AssertionError) as e:
+                        unsigned = str(np.dtype(spec.dtype)) == "bool" or str(np.dtype(spec.dtype)).startswith("uint")
+                        ctx.fail("specs", "toGym_raises", f"conversion to a gym space raises: {e}", case,
+                                 {"spec_class": type(spec).__name__, "unsigned_or_bool": unsigned})
+                        sp = None
+                    if sp is not None and not sp.contains(a):
+                        ctx.fail("specs", "toGym_member", "a valid value is not in the converted gym space", {**case, "space": repr(sp)})
+                    try:
+                        dm.validate(a)
+                    except ValueError as e:
+                        ctx.fail("specs", "toDm_member", f"a valid value is rejected by the converted dm_env spec: {e}", case)
+                    if drv.call("spec.gym_contains", spec=js, value=speclib.arr_json(v)) is not True:
+                        ctx.disagree("specs", "model gym space rejects a valid value", case)
+            # Python scalars (weakly typed in JAX): a rank-0 spec must treat them like any other value of the dtype jnp.asarray gives
+            # them (int -> int32, float -> float32, bool -> bool with x64 off): accepted exactly when that dtype is the declared one
+            # and the value lies inside the bounds — never converted to the declared dtype first
+            if tuple(spec.shape) == ():
+                b0 = bounds_of(spec)
+                sdt = str(np.dtype(spec.dtype))
+                pys: List[Any] = [0, 1, 3, -1, 300, 2.7, 0.0, 1.0, -0.5, True, False]
+                if b0 is not None and sdt != "bool":
+                    lo0, hi0 = float(b0[0]), float(b0[1])
+                    if abs(lo0) < 1e6 and abs(hi0) < 1e6:
+                        pys += [int(lo0), int(hi0), int(hi0) + 1, int(lo0) - 1, lo0, hi0, (lo0 + hi0) / 2]
+                for pv in pys:
+                    pdt = {bool: "bool", int: "int32", float: "float32"}[type(pv)]
+                    av = np.asarray(pv, pdt)
+                    inside = True if b0 is None else bool(np.asarray(b0[0]).astype(np.float64) <= float(av) <= np.asarray(b0[1]).astype(np.float64))
+                    expect = pdt == sdt and inside
+                    ctx.evaluations += 1
+                    got = impl_validate(spec, pv)
+                    ctx.count(f"value_python_{type(pv).__name__}_{'ok' if got else 'rejected'}")
+                    ctx.nontrivial.add((repr(spec), "py", repr(pv)))
+                    if got != expect:
+                        ctx.fail("specs", "valid_iff", f"validate {'accepts' if got else 'rejects'} the Python scalar {pv!r} (dtype {pdt} as an array) for a spec of dtype {sdt}",
+                                 {**case0, "label": "python_scalar", "value": pv, "validate_accepts": got}, {"label": "python_scalar"})
+                        break
+            # replace()
+            try:
+                r0 = spec.replace()
+                spec.replace(name="renamed")
+                pickle.loads(pickle.dumps(spec))
+            except Exception as e:  # noqa: BLE001
+                ctx.fail("specs", "replace_or_pickle_raises", f"replace()/replace(name=…)/pickling raises {type(e).__name__}: {e}", case0)
+                continue
+            try:
+                r0_eq = bool(r0 == spec)
+            except Exception as e:  # noqa: BLE001
+                ctx.fail("specs", "eq_raises", f"== raises {type(e).__name__}: {e}", case0)
+                continue
+            if not r0_eq or speclib.leaf_json(r0) != js:
+                ctx.fail("specs", "replace_nil", "replace() is not equal to the spec", case0)
+            rn = spec.replace(name="renamed")
+            jn = speclib.leaf_json(rn)
+            mrn = drv.call("spec.replace", spec=js, kws=[{"k": "name", "v": "renamed"}])
+            if {k: v for k, v in jn.items() if k != "name"} != {k: v for k, v in js.items() if k != "name"} or jn["name"] != "renamed":
+                ctx.fail("specs", "replace_only_named", "replace(name=…) changed another attribute", {**case0, "after": repr(rn)[:300]})
+            if mrn != jn:
+                ctx.disagree("specs", "model replace(name) != implementation", {**case0, "model": mrn, "impl": jn})
+            # an earlier replace(...) on the same object must not leak into a later one
+            r1 = spec.replace()
+            if speclib.leaf_json(r1) != js:
+                ctx.fail("specs", "replace_nil", "replace() after an earlier replace(name=…) on the same spec differs from the spec", {**case0, "after": repr(r1)[:300]})
+            # equality
+            label, other = perturb(rng, spec)
+            try:
+                jo = speclib.leaf_json(other)
+            except TypeError:
+                continue
+            ctx.evaluations += 1
+            try:
+                e1, e2, er = bool(spec == other), bool(other == spec), bool(spec == spec)
+            except Exception as e:  # noqa: BLE001
+                ctx.fail("specs", "eq_raises", f"== raises {type(e).__name__}: {e}", {**case0, "other": repr(other)[:300], "perturbed": label})
+                continue
+            m = drv.call("spec.eq", a=js, b=jo)
+            casee = {**case0, "other": repr(other)[:300], "perturbed": label, "impl_eq": e1, "model_eq": m}
+            ctx.count(f"eq_{label}_{e1}")
+            if not er:
+                ctx.fail("specs", "eq_refl", "spec != spec", casee)
+            if e1 != e2:
+                ctx.fail("specs", "eq_symm", "equality is not symmetric", casee)
+            expect_eq = label in ("same", "bounds_broadcast")
+            if e1 != expect_eq:
+                ctx.fail("specs", "eq_distinguishes", f"== is {e1} for specs that differ in: {label}", casee, {"perturbed": label})
+            elif m != e1:
+                ctx.disagree("specs", "model equality != implementation", casee)
+            # pickling
+            p = pickle.loads(pickle.dumps(spec))
+            if not (p == spec) or speclib.leaf_json(p) != js:
+                ctx.fail("specs", "pickle_roundtrip", "pickle round trip is not an equal spec", case0)
+            ctx.sample({"spec": repr(spec)[:200], "kind": kind})
+        except DriverError as e:  # what the implementation reports is not something the model can represent (e.g. a negative count)
+            ctx.disagree("specs", f"model cannot represent what the implementation reports: {e}", {"iteration": it})
     # nested specs
     for it in range(n // 3):
-        kids = [gen_leaf(rng) for _ in range(3)]
-        inner = specs.Spec(NT2, "Inner", p=kids[0], q=kids[1])
-        outer = specs.Spec(NT3, "Outer", x=kids[2], y=inner, z=gen_leaf(rng))
-        ctx.evaluations += 1
-        g = outer.generate_value()
-        ok = True
         try:
-            outer.validate(g)
-        except (ValueError, TypeError):
-            ok = False
-        if not ok:
-            ctx.fail("specs", "nested_generate_valid", "nested validate rejects generate_value()", {"spec": repr(outer)[:300]})
-        try:
-            jn, jv = speclib.nested_json(outer), speclib.nvalue_json(outer, g)
-        except TypeError:
-            continue
-        if drv.call("spec.nested_valid", spec=jn, value=jv) is not True:
-            ctx.disagree("specs", "model nested valid rejects generate_value()", {"spec": repr(outer)[:300]})
-        # break one leaf of the value
-        bad_leaf = candidate_values(rng, kids[0])[-2][1]  # wrong shape
-        gbad = g._replace(y=g.y._replace(p=jnp.asarray(bad_leaf)))
-        try:
-            outer.validate(gbad)
-            ctx.fail("specs", "nested_valid_iff", "nested validate accepts a value with a wrong-shaped leaf", {"spec": repr(outer)[:300]})
-        except (ValueError, TypeError):
-            pass
-        # structure must match exactly: a value with an extra field, or a missing one, is not a member
-        NT4 = collections.namedtuple("NT4", ["x", "y", "z", "extra"])
-        NT2x = collections.namedtuple("NT2x", ["x", "y"])
-        for label, bad in (("extra_field", NT4(g.x, g.y, g.z, jnp.zeros(()))), ("missing_field", NT2x(g.x, g.y)),
-                           ("extra_field_nested", g._replace(y=collections.namedtuple("NT3i", ["p", "q", "r"])(g.y.p, g.y.q, jnp.zeros(()))))):
+            kids = [gen_leaf(rng) for _ in range(3)]
+            inner = specs.Spec(NT2, "Inner", p=kids[0], q=kids[1])
+            outer = specs.Spec(NT3, "Outer", x=kids[2], y=inner, z=gen_leaf(rng))
+            ctx.evaluations += 1
+            g = outer.generate_value()
+            ok = True
+            try:
+                outer.validate(g)
+            except (ValueError, TypeError):
+                ok = False
+            if not ok:
+                ctx.fail("specs", "nested_generate_valid", "nested validate rejects generate_value()", {"spec": repr(outer)[:300]})
+            try:
+                jn, jv = speclib.nested_json(outer), speclib.nvalue_json(outer, g)
+            except TypeError:
+                continue
+            if drv.call("spec.nested_valid", spec=jn, value=jv) is not True:
+                ctx.disagree("specs", "model nested valid rejects generate_value()", {"spec": repr(outer)[:300]})
+            # break one leaf of the value
+            bad_leaf = candidate_values(rng, kids[0])[-2][1]  # wrong shape
+            gbad = g._replace(y=g.y._replace(p=jnp.asarray(bad_leaf)))
+            try:
+                outer.validate(gbad)
+                ctx.fail("specs", "nested_valid_iff", "nested validate accepts a value with a wrong-shaped leaf", {"spec": repr(outer)[:300]})
+            except (ValueError, TypeError):
+                pass
+            # structure must match exactly: a value with an extra field, or a missing one, is not a member
+            NT4 = collections.namedtuple("NT4", ["x", "y", "z", "extra"])
+            NT2x = collections.namedtuple("NT2x", ["x", "y"])
+            for label, bad in (("extra_field", NT4(g.x, g.y, g.z, jnp.zeros(()))), ("missing_field", NT2x(g.x, g.y)),
+                               ("extra_field_nested", g._replace(y=collections.namedtuple("NT3i", ["p", "q", "r"])(g.y.p, g.y.q, jnp.zeros(()))))):
+                ctx.evaluations += 1
+                try:
+                    outer.validate(bad)
+                    ctx.fail("specs", "nested_valid_iff", f"nested validate accepts a value with a different structure ({label})", {"spec": repr(outer)[:300], "label": label}, {"label": label})
+                except Exception:  # noqa: BLE001  (ValueError / TypeError / KeyError: any rejection is fine)
+                    pass
+            same = specs.Spec(NT3, "Outer", x=kids[2], y=specs.Spec(NT2, "Inner", p=kids[0], q=kids[1]), z=outer._specs["z"])
+            lab, k2 = perturb(rng, kids[1])
+            diff = specs.Spec(NT3, "Outer", x=kids[2], y=specs.Spec(NT2, "Inner", p=kids[0], q=k2), z=outer._specs["z"])
+            try:
+                same_eq = bool(outer == same)
+            except Exception as e:  # noqa: BLE001
+                ctx.fail("specs", "eq_raises", f"nested == raises {type(e).__name__}: {e}", {"spec": repr(outer)[:300]})
+                continue
+            if not same_eq:
+                ctx.fail("specs", "nested_eq_iff_children", "nested specs with equal children are not equal", {"spec": repr(outer)[:300]})
+            # the same children given in another keyword order (and the same through replace and a pickle round trip)
+            reordered = specs.Spec(NT3, "Outer", z=outer._specs["z"], y=specs.Spec(NT2, "Inner", q=kids[1], p=kids[0]), x=kids[2])
             ctx.evaluations += 1
             try:
-                outer.validate(bad)
-                ctx.fail("specs", "nested_valid_iff", f"nested validate accepts a value with a different structure ({label})", {"spec": repr(outer)[:300], "label": label}, {"label": label})
-            except Exception:  # noqa: BLE001  (ValueError / TypeError / KeyError: any rejection is fine)
-                pass
-        same = specs.Spec(NT3, "Outer", x=kids[2], y=specs.Spec(NT2, "Inner", p=kids[0], q=kids[1]), z=outer._specs["z"])
-        lab, k2 = perturb(rng, kids[1])
-        diff = specs.Spec(NT3, "Outer", x=kids[2], y=specs.Spec(NT2, "Inner", p=kids[0], q=k2), z=outer._specs["z"])
-        try:
-            same_eq = bool(outer == same)
-        except Exception as e:  # noqa: BLE001
-            ctx.fail("specs", "eq_raises", f"nested == raises {type(e).__name__}: {e}", {"spec": repr(outer)[:300]})
-            continue
-        if not same_eq:
-            ctx.fail("specs", "nested_eq_iff_children", "nested specs with equal children are not equal", {"spec": repr(outer)[:300]})
-        # the same children given in another keyword order (and the same through replace and a pickle round trip)
-        reordered = specs.Spec(NT3, "Outer", z=outer._specs["z"], y=specs.Spec(NT2, "Inner", q=kids[1], p=kids[0]), x=kids[2])
-        ctx.evaluations += 1
-        try:
-            ro = [bool(outer == reordered), bool(reordered == outer), bool(pickle.loads(pickle.dumps(reordered)) == outer),
-                  bool(outer.replace(y=specs.Spec(NT2, "Inner", q=kids[1], p=kids[0])) == outer)]
-        except Exception as e:  # noqa: BLE001
-            ctx.fail("specs", "eq_raises", f"nested == raises {type(e).__name__}: {e}", {"spec": repr(outer)[:300], "label": "reordered"})
-            ro = [True]
-        if not all(ro):
-            ctx.fail("specs", "nested_eq_iff_children", f"nested specs with equal children given in another keyword order are not equal {ro}",
-                     {"spec": repr(outer)[:300], "label": "reordered"}, {"label": "reordered"})
-        try:
-            d = bool(outer == diff)
-        except Exception as e:  # noqa: BLE001
-            d = None
-        exp = lab in ("same", "bounds_broadcast")
-        if d is not None and d != exp:
-            ctx.fail("specs", "nested_eq_iff_children", f"nested == is {d} although a child differs in {lab}", {"spec": repr(outer)[:300], "child": repr(k2)[:200]})
-        ctx.nontrivial.add(("nested", repr(outer)[:200]))
+                ro = [bool(outer == reordered), bool(reordered == outer), bool(pickle.loads(pickle.dumps(reordered)) == outer),
+                      bool(outer.replace(y=specs.Spec(NT2, "Inner", q=kids[1], p=kids[0])) == outer)]
+            except Exception as e:  # noqa: BLE001
+                ctx.fail("specs", "eq_raises", f"nested == raises {type(e).__name__}: {e}", {"spec": repr(outer)[:300], "label": "reordered"})
+                ro = [True]
+            if not all(ro):
+                ctx.fail("specs", "nested_eq_iff_children", f"nested specs with equal children given in another keyword order are not equal {ro}",
+                         {"spec": repr(outer)[:300], "label": "reordered"}, {"label": "reordered"})
+            try:
+                d = bool(outer == diff)
+            except Exception as e:  # noqa: BLE001
+                d = None
+            exp = lab in ("same", "bounds_broadcast")
+            if d is not None and d != exp:
+                ctx.fail("specs", "nested_eq_iff_children", f"nested == is {d} although a child differs in {lab}", {"spec": repr(outer)[:300], "child": repr(k2)[:200]})
+            ctx.nontrivial.add(("nested", repr(outer)[:200]))
+        except DriverError as e:  # what the implementation reports is not something the model can represent (e.g. a negative count)
+            ctx.disagree("specs", f"model cannot represent what the implementation reports: {e}", {"iteration": it})
     # the specs of the shipped environments
     import jumanji
 
